@@ -351,9 +351,128 @@ pub fn run(cfg: &Cfg, c18: bool) -> i32 {
         let ex = sched::run(&plan, &format!("r{idx}"), &mut |k| r2.below(k), 600);
         account(&mut rep, &mut st, &plan, &ex, c18, json!({"mode": "random", "case_index": idx, "seed": cfg.seed}));
     }
+    if !miri && cfg.replay.is_none() {
+        long_sessions(&mut rep, cfg, c18);
+    }
     rep.exhaustive = Some(false);
     rep.extra.insert("dfs_all_plans_complete".into(), json!(all_complete));
     rep.extra.insert("distinct_schedules".into(), json!(st.schedules.len()));
     rep.extra.insert("distinct_state_signatures".into(), json!(st.states.len()));
     rep.finish()
+}
+
+
+/// Long-lived sessions: behaviour must not depend on how many requests a session has already
+/// served (tables that grow, counters, thresholds). `prefix` completed requests, then either
+/// (C05) a pipelined burst answered in reverse order, or (C18) requests whose futures are
+/// abandoned before their replies have been read, followed by a survivor and a fresh request.
+fn long_sessions(rep: &mut Report, cfg: &Cfg, c18: bool) {
+    use crate::sched::drive;
+    use netconf::message::rpc::operation::{Builder, Get};
+    let mut lens: Vec<usize> = vec![0, 1, 2, 10, 100, 254, 255, 256, 257, 300, 511, 512, 513, 1000, 1023, 1024, 1025, 2047, 2048, 4096];
+    let extra = cfg.count(6, 600) as usize;
+    for i in 0..extra {
+        let mut r = cfg.prng("long-session", cfg.case_index(i as u64));
+        lens.push(r.range(3, if cfg.thorough() { 70_000 } else { 5_000 }));
+    }
+    let lens: Vec<usize> = lens.into_iter().enumerate().filter(|(i, _)| (*i as u64) % cfg.shards == cfg.shard).map(|(_, l)| l).collect();
+    for prefix in lens {
+        for burst in [2usize, 3, 50, 255, 256, 257, 400] {
+            if burst > 3 && prefix > 1100 {
+                continue; // keep the quadratic part small
+            }
+            let caps: Vec<&str> = vec!["urn:ietf:params:netconf:base:1.0"];
+            let mut s = crate::sess::establish_ok(&caps);
+            let wit = |what: &str, detail: String| json!({"completed_requests_before": prefix, "burst": burst, "what": what, "observed": detail, "seed": cfg.seed});
+            // the completed prefix
+            let mut ok = true;
+            for k in 0..prefix {
+                let tag = format!("p{k}");
+                let ex = s.exchange::<Get, _, _>(|b| b.finish(), |id| Some(memwire::data_reply(id.unwrap_or("0"), &tag)));
+                match ex {
+                    crate::sess::Exchange::Reply { result: Ok(v), .. } if &*v == tag => {}
+                    other => {
+                        rep.violation("long-session:request-in-prefix-failed", &format!("request {k} of the prefix"), wit("prefix", format!("{other:?}")));
+                        ok = false;
+                        break;
+                    }
+                }
+                // the recorded wire must not grow without bound
+                if k % 512 == 511 {
+                    s.wire.lock().sent.clear();
+                }
+            }
+            if !ok {
+                continue;
+            }
+            s.wire.lock().sent.clear();
+            // the burst
+            let mut futs = Vec::new();
+            for _ in 0..burst {
+                match drive(s.session.rpc::<Get, _>(|b| b.finish()), 64) {
+                    Some(Ok(f)) => futs.push(Some(Box::pin(f))),
+                    other => {
+                        rep.violation("long-session:rpc-failed", "", wit("burst", format!("{:?}", other.map(|r| r.map(|_| ())))));
+                        break;
+                    }
+                }
+            }
+            if futs.len() != burst {
+                continue;
+            }
+            let ids: Vec<String> = s.wire.lock().sent.iter().filter_map(|m| memwire::request_message_id_lenient(m)).collect();
+            if ids.len() != burst {
+                rep.violation("harness:long-session", "could not read the message-ids", wit("burst", format!("{ids:?}")));
+                continue;
+            }
+            let key = format!("long|{prefix}|{burst}|{c18}");
+            rep.case(Some(key.as_bytes()));
+            rep.count("long_session_cases");
+            rep.count_n("long_session_requests_served", (prefix + burst + 1) as u64);
+            if c18 {
+                // keep the first; abandon all others before anything was read
+                for f in futs.iter_mut().skip(1) {
+                    *f = None;
+                }
+                // the abandoned requests' replies arrive first, the survivor's last
+                for k in (0..burst).rev() {
+                    s.wire.deliver(memwire::data_reply(&ids[k], &format!("b{k}")));
+                }
+                match drive(futs[0].take().unwrap(), 4 * burst + 64) {
+                    Some(Ok(v)) if &*v == "b0" => {}
+                    other => {
+                        rep.violation("long-session:survivor-did-not-get-its-reply", "", wit("survivor", format!("{:?}", other.map(|r| r.map(|v| v.to_string())))));
+                        continue;
+                    }
+                }
+            } else {
+                for k in (0..burst).rev() {
+                    s.wire.deliver(memwire::data_reply(&ids[k], &format!("b{k}")));
+                }
+                let mut bad = None;
+                for (k, f) in futs.iter_mut().enumerate() {
+                    match drive(f.take().unwrap(), 4 * burst + 64) {
+                        Some(Ok(v)) if *v == format!("b{k}") => {}
+                        other => {
+                            bad = Some(format!("request {k}: {:?}", other.map(|r| r.map(|v| v.to_string()))));
+                            break;
+                        }
+                    }
+                }
+                if let Some(b) = bad {
+                    rep.violation("long-session:caller-did-not-get-its-own-reply", "", wit("burst", b));
+                    continue;
+                }
+            }
+            // the session must remain usable
+            let ex = s.exchange::<Get, _, _>(|b| b.finish(), |id| Some(memwire::data_reply(id.unwrap_or("0"), "fresh")));
+            match ex {
+                crate::sess::Exchange::Reply { result: Ok(v), .. } if &*v == "fresh" => {}
+                other => {
+                    let sig = if c18 { "long-session:session-unusable-after-drop" } else { "long-session:fresh-request-failed" };
+                    rep.violation(sig, "", wit("fresh request", format!("{other:?}")));
+                }
+            }
+        }
+    }
 }
